@@ -96,6 +96,19 @@ func (m *MonC20) AfterTx(w *World, b *BlockCtx, tm *TxMeta, r abci.ResponseDeliv
 			return
 		}
 		m.voted[vk] = true
+		if b.Prev.Vals[pk] != nil {
+			listed := false
+			for _, v := range b.Req.Votes {
+				var a types.TmAddress
+				copy(a[:], v.Validator.Address)
+				if a == TmAddr(pk) {
+					listed = true
+				}
+			}
+			if !listed {
+				w.Probe("c20_vote_of_elected_but_not_yet_signing_validator")
+			}
+		}
 		switch d := tm.Data.(type) {
 		case transaction.VoteCommissionDataV3:
 			c := commissionOf(d)
@@ -202,6 +215,20 @@ func (m *MonC20) AfterBlock(w *World, b *BlockCtx) {
 	if b.Cur == nil {
 		return
 	}
+	// price-table and version tallies run in EndBlock: a validator switched off by a transaction of this
+	// block is already leaving the set and is counted neither as present nor as a supporter
+	for i, tm := range b.Metas {
+		if d, ok := tm.Data.(transaction.SetCandidateOffData); ok && i < len(b.Res.Deliver) && b.Res.Deliver[i].Code == 0 && !tm.Garbage && !tm.Malleated {
+			if p, ok := pw[d.PubKey]; ok {
+				total = new(big.Int).Sub(total, p)
+				delete(pw, d.PubKey)
+				w.Probe("c20_voter_switched_off_in_tally_block")
+			}
+		}
+	}
+	if total.Sign() == 0 {
+		total = big.NewInt(1)
+	}
 	if props, ok := m.comm[H]; ok {
 		win, note := decide(props, pw, total)
 		m.classes["comm/"+exactness(note)] = true
@@ -280,17 +307,21 @@ func init() {
 	register(&PropSpec{ID: "C20", Level: "exploration",
 		Rule: "governance histories over validator sets whose stakes are equal, small-integer multiples or large coprime numbers, so that voter subsets sit exactly at, just below and just above 2/3 of the present power; votes of all three kinds (price table variants, version names, halt) target shared heights, with absent validators, non-validator voters, past-height and duplicate votes; oracle: integer tally 3*support > 2*present decides what must be observed (exported price table, recorded versions, stop hook); distinct non-trivial case = distinct (vote kind, below / exactly / above 2/3) class",
 		Make: func(r *rand.Rand, seed int64, chain int, tier string) *Scenario {
-			p := Profile{W: map[string]int{"votecomm": 10, "voteupdate": 3, "sethalt": 1, "send": 2, "delegate": 1}, TxMin: 1, TxMax: 5, PAbsent: 0.05}
+			// seton / setoff make validators leave and rejoin the set: for two blocks after an election the
+			// state's validators and the signers of the commit differ (elected but not yet voting)
+			p := Profile{W: map[string]int{"votecomm": 10, "voteupdate": 3, "sethalt": 1, "send": 2, "delegate": 1, "setoff": 1, "seton": 2}, TxMin: 1, TxMax: 5, PAbsent: 0.05}
 			sc := baseScenario("C20", r, seed, chain, tier, p, func(g *GenCfg, n *NodeCfg) {
 				g.NVal = []int{3, 3, 6, 4, 5}[r.Intn(5)]
 				g.NCand = r.Intn(2)
 				g.EqualStake = r.Intn(3) != 0
 				g.NAcct = 10 + r.Intn(6)
+				n.Period = []uint64{4, 6, 6, 12}[r.Intn(4)]
 			})
 			// every validator's candidate gets its own owner so that all of them can vote
 			st, _ := UnmarshalGenesis(sc.Genesis)
 			for i := range st.Candidates {
 				st.Candidates[i].OwnerAddress = Acct(i % sc.Gen.NAcct).Addr
+				st.Candidates[i].ControlAddress = Acct(i % sc.Gen.NAcct).Addr
 				st.Candidates[i].Status = 2
 			}
 			if !sc.Gen.EqualStake {
